@@ -222,3 +222,77 @@ Theorem sc_write_exact k roots ls ok :
   fst (fst (sc_write k roots ls ok)) = enc_payload roots (first_occ ls)
   /\ snd (sc_write k roots ls ok) = ok.
 Proof. rewrite sc_write_spec. split; reflexivity. Qed.
+
+(* ---- several Dag entries (root, selector), one shared cidSet ---------------------------------------- *)
+Definition dag_blocks (ds : list (bytes * trace)) : list block :=
+  concat (map (fun d => blocks_of (t_loads (snd d))) ds).
+
+Lemma dag_loads_all_ok ds : Forall (fun d => t_ok (snd d) = true) ds ->
+  dag_loads ds = (dag_blocks ds, true).
+Proof.
+  induction 1 as [|d t Hd _ IH]; cbn [dag_loads dag_blocks map concat]; [reflexivity|].
+  rewrite Hd, IH. reflexivity.
+Qed.
+
+(* the first walk that fails aborts everything after it *)
+Lemma dag_loads_failed ds : Exists (fun d => t_ok (snd d) = false) ds -> snd (dag_loads ds) = false.
+Proof.
+  induction ds as [|d t IH]; intros H; [inversion H|]. cbn [dag_loads].
+  destruct (t_ok (snd d)) eqn:E; [|reflexivity]. cbn [snd]. apply IH.
+  inversion H; subst; [congruence|assumption].
+Qed.
+
+(* for ANY list of Dag entries and any number of callbacks: header roots are all the Dags' roots in
+   order, the payload is the first occurrences of the per-Dag loads taken in Dag order *)
+Theorem sc_write_dags_exact k ds :
+  fst (fst (sc_write_dags k ds)) = enc_payload (map fst ds) (first_occ (fst (dag_loads ds)))
+  /\ snd (sc_write_dags k ds) = snd (dag_loads ds).
+Proof. unfold sc_write_dags, dag_roots. apply sc_write_exact. Qed.
+
+Theorem sc_write_dags_all_ok k ds : Forall (fun d => t_ok (snd d) = true) ds ->
+  fst (fst (sc_write_dags k ds))
+  = enc_payload (map fst ds) (first_occ (concat (map (fun d => blocks_of (t_loads (snd d))) ds)))
+  /\ snd (sc_write_dags k ds) = true.
+Proof.
+  intros H. destruct (sc_write_dags_exact k ds) as [H1 H2]. rewrite H1, H2.
+  rewrite dag_loads_all_ok by exact H. split; reflexivity.
+Qed.
+
+Theorem sc_prepare_dags_all_ok ds : Forall (fun d => t_ok (snd d) = true) ds ->
+  let bs := first_occ (concat (map (fun d => blocks_of (t_loads (snd d))) ds)) in
+  sc_prepare_dags ds = Some (blen (enc_payload (map fst ds) bs), map fst ds, map fst bs).
+Proof.
+  intros H bs. unfold sc_prepare_dags, dag_roots. rewrite dag_loads_all_ok by exact H.
+  cbn [fst snd]. apply sc_prepare_spec.
+Qed.
+
+(* no Dag entry is lost: if every walk succeeds and opens its own root first (Load(root) precedes
+   the walk), every Dag's root -- and every block any Dag's walk opened -- is in the output *)
+Theorem sc_dags_nothing_lost ds : Forall (fun d => t_ok (snd d) = true) ds ->
+  let bs := first_occ (concat (map (fun d => blocks_of (t_loads (snd d))) ds)) in
+  (forall d c, In d ds -> In c (map fst (blocks_of (t_loads (snd d)))) -> In c (map fst bs))
+  /\ (Forall (fun d => exists x rest, blocks_of (t_loads (snd d)) = (fst d, x) :: rest) ds ->
+      forall r, In r (map fst ds) -> In r (map fst bs)).
+Proof.
+  intros Hok bs.
+  assert (Hall : forall d c, In d ds -> In c (map fst (blocks_of (t_loads (snd d)))) -> In c (map fst bs)).
+  { intros d c Hd Hc. unfold bs. destruct (first_occ_spec (concat (map (fun d => blocks_of (t_loads (snd d))) ds))) as (_ & Hin & _).
+    apply Hin. apply in_map_iff in Hc. destruct Hc as (b & <- & Hb). apply in_map.
+    apply in_concat. exists (blocks_of (t_loads (snd d))). split; [|exact Hb].
+    apply in_map_iff. exists d. split; [reflexivity|exact Hd]. }
+  split; [exact Hall|].
+  intros Hroot r Hr. apply in_map_iff in Hr. destruct Hr as (d & <- & Hd).
+  rewrite Forall_forall in Hroot. destruct (Hroot d Hd) as (x & rest & He).
+  apply (Hall d (fst d) Hd). rewrite He. left. reflexivity.
+Qed.
+
+(* Prepare then Dump = Write for any list of Dags *)
+Theorem sc_dags_dump_eq_write k store ds size hroots cids :
+  sc_prepare_dags ds = Some (size, hroots, cids) ->
+  Forall (fun b => store (fst b) = Some (snd b)) (first_occ (fst (dag_loads ds))) ->
+  sc_dump k store hroots cids = sc_write_dags k ds
+  /\ size = blen (fst (fst (sc_write_dags k ds))).
+Proof.
+  unfold sc_prepare_dags, sc_write_dags. destruct (snd (dag_loads ds)) eqn:E; [|discriminate].
+  apply sc_dump_eq_write.
+Qed.
